@@ -126,13 +126,15 @@ Theorem dump_inj_Polyhedron : forall p q, wf_polyhedron p -> in_range ph_class (
   wf_polyhedron q -> in_range ph_class (ph_status q) ->
   dump_polyhedron p [] = dump_polyhedron q [] -> p = q.
 Proof. exact poly_inj. Qed.
+(** [obj_into_any_statement C dump load wf status] (Codec/Thms.v) unfolds to
+      match cex_any C with
+      | None => forall tgt x rest, in_range C tgt -> wf x -> in_range C (status x) -> load tgt (dump x rest) = Some (x, rest)
+      | Some (t, s) => forall x rest, wf x -> status x = s -> load t (dump x rest) <> Some (x, rest)
+      end
+    It is stated through the definition because [cex_any ph_class] is a search over 512 x 512 pairs that the
+    kernel must not be asked to run by plain conversion when it has no early exit. *)
 Theorem roundtrip_into_any_Polyhedron_decided :
-  match cex_any ph_class with
-  | None => forall tgt p rest, in_range ph_class tgt -> wf_polyhedron p -> in_range ph_class (ph_status p) ->
-            load_polyhedron tgt (dump_polyhedron p rest) = Some (p, rest)
-  | Some (t, s) => forall p rest, wf_polyhedron p -> ph_status p = s ->
-            load_polyhedron t (dump_polyhedron p rest) <> Some (p, rest)
-  end.
+  obj_into_any_statement ph_class dump_polyhedron load_polyhedron wf_polyhedron ph_status.
 Proof. exact poly_any. Qed.
 
 (** ** BD_Shape<mpq_class>, BD_Shape<mpz_class> *)
@@ -229,10 +231,12 @@ Definition roundtrip_into_any_Grid_full : Prop :=
     [Checked::float_mpq_to_string] prints the dyadic rational n / 2^k and whether that text reads
     back to the same value.  Refuted by -1/16, printed "0.-625"; on the bounded range below the
     text reads back EXACTLY when the misprint condition (negative, fewer digits than decimals)
-    does not hold.  The unbounded statement is [float_print_full] (not proved). *)
-Theorem float_entry_roundtrip_refuted :
-  float_mpq_to_string (-1) 4 = "0.-625"%string /\ reads_back (-1) 4 = false.
-Proof. exact float_print_refuted. Qed.
+    does not hold (it never holds once the sign is laid out separately).  The unbounded statement is
+    [float_print_full] (not proved). *)
+(** decided by the regenerated fact [float_print_sign_separate]: "0.-625", not read back, on a tree where the sign is
+    counted as a digit; "-0.0625", read back, otherwise *)
+Theorem float_entry_roundtrip_decided : neg_sixteenth_statement.
+Proof. exact float_print_decided. Qed.
 Theorem float_entry_roundtrip_bounded_partial : forall i k, (i < 256)%nat -> (k <= 12)%nat ->
   let a := (2 * Z.of_nat i + 1)%Z in
   reads_back a k = negb (misprinted a k) /\ reads_back (- a) k = negb (misprinted (- a) k).
